@@ -567,7 +567,7 @@ def _plan(tier):
         return {"blocks": 30, "rt": 1500, "levels": ((26, 2),), "sample": 6, "live": 40, "procs": 1,
                 "variants": 1}
     # (max stream length, cut-set size enumerated exhaustively)
-    return {"blocks": 80, "rt": 12000, "levels": ((11, 4), (18, 3), (44, 2)), "sample": 25, "live": 400,
+    return {"blocks": 80, "rt": 12000, "levels": ((10, 4), (15, 3), (34, 2)), "sample": 20, "live": 400,
             "procs": 16, "variants": 4}
 
 
